@@ -59,6 +59,8 @@ BUILTIN_CLASSES = {
     "ValueError": ["Exception"],
     "KeyError": ["Exception"],
     "IndexError": ["Exception"],
+    "NameError": ["Exception"],
+    "UnboundLocalError": ["NameError"],
     "AssertionError": ["Exception"],
     "ImportError": ["Exception"],
     "Error": ["Exception"],                 # concurrent.futures._base.Error
